@@ -16,6 +16,7 @@ import TwModel
 import TwSpec
 import TwProofs.Lemmas.SpecSim
 import TwProofs.Lemmas.PrattRoundTrip
+import TwProofs.Lemmas.ParseEval
 
 namespace Tw.C01
 open Tw TwSpec
@@ -110,11 +111,12 @@ theorem parentheses_make_no_node (pe : Nat → PS → Expr × PS) (pl : TT → P
   simp only []
   rw [if_pos hclose]
 
-/-! ### the Pratt parser inverts the printer (identifiers, binary operators, parentheses) -/
+/-! ### the Pratt parser inverts the printer (identifiers, prefix `-` `!`, binary operators, the ternary, parentheses) -/
 
-/-- **round trip**: print a tree of identifiers and binary operators with the parentheses the
-    precedence order requires (operators of equal level group to the left) plus any redundant
-    pairs; the model's `parseExpression(LOWEST)` returns exactly that tree from every parser
+/-- **round trip**: print a tree of identifiers, prefix operators, binary operators and ternaries
+    with the parentheses the precedence order requires (ternary < equality < comparison <
+    additive < multiplicative < prefix; equal levels group to the left; a ternary nests to the
+    right in its else part and needs parentheses everywhere else) plus any redundant pairs; the model's `parseExpression(LOWEST)` returns exactly that tree from every parser
     state, with enough fuel, stops on the expression's last token and records no error -/
 theorem parse_of_print (lp rp : Token) (hlp : lp.ty = .LPAREN) (hrp : rp.ty = .RPAREN) (extra : BE → Bool)
     (e : BE) (hok : e.ok) (k : List Token) (hk : NoIll k) (hstop : StopR LOWEST k) :
@@ -130,6 +132,34 @@ theorem redundant_parentheses_do_not_matter (lp rp : Token) (hlp : lp.ty = .LPAR
       (parseExpression f LOWEST (p.withToks (showAt lp rp extra1 (LOWEST + 1) e ++ k))).1 =
       (parseExpression f LOWEST (p.withToks (showAt lp rp extra2 (LOWEST + 1) e ++ k))).1 :=
   redundant_parentheses_irrelevant lp rp hlp hrp extra1 extra2 e hok k hk hstop
+
+/-- **parser and evaluator composed**: the value the model computes for the printed tokens is the
+    denotation `seval` of the tree that was printed (errors where there is none) -/
+theorem parsed_tokens_evaluate_to_the_denotation (lp rp : Token) (hlp : lp.ty = .LPAREN) (hrp : rp.ty = .RPAREN)
+    (extra : BE → Bool) (e : BE) (hok : e.ok) (hcanon : e.canon) (k : List Token) (hk : NoIll k) (hstop : StopR LOWEST k) :
+    ∃ N, ∀ f, N ≤ f → ∀ p : PS, ∀ (fuel : Nat) (c : Ctx) (env : Env), c.custom = [] →
+      Agrees (evalExpr fuel c env (parseExpression f LOWEST (p.withToks (showAt lp rp extra (LOWEST + 1) e ++ k))).1)
+        (seval env e.toS) :=
+  parse_then_eval_is_denotation lp rp hlp hrp extra e hok hcanon k hk hstop
+
+/-- non-vacuity: `c ? a : d ? -b : e + f` is the right-nested ternary, printed without parentheses;
+    a ternary as condition or as operand needs them -/
+example :
+    let t (ty : TT) (s : String) : Token := { ty := ty, lit := b s, pos := {} }
+    let i (s : String) : BE := .ident (t .IDENT s)
+    showAt (t .LPAREN "(") (t .RPAREN ")") (fun _ => false) (LOWEST + 1)
+      (.tern (t .QUESTION "?") (t .COLON ":") (i "c") (i "a")
+        (.tern (t .QUESTION "?") (t .COLON ":") (i "d") (.pre (t .SUB "-") (i "b")) (.bin (t .ADD "+") (i "e") (i "f")))) =
+    [t .IDENT "c", t .QUESTION "?", t .IDENT "a", t .COLON ":", t .IDENT "d", t .QUESTION "?", t .SUB "-", t .IDENT "b",
+     t .COLON ":", t .IDENT "e", t .ADD "+", t .IDENT "f"] := by decide
+
+example :
+    let t (ty : TT) (s : String) : Token := { ty := ty, lit := b s, pos := {} }
+    let i (s : String) : BE := .ident (t .IDENT s)
+    showAt (t .LPAREN "(") (t .RPAREN ")") (fun _ => false) (LOWEST + 1)
+      (.bin (t .ADD "+") (.tern (t .QUESTION "?") (t .COLON ":") (i "c") (i "a") (i "d")) (i "x")) =
+    [t .LPAREN "(", t .IDENT "c", t .QUESTION "?", t .IDENT "a", t .COLON ":", t .IDENT "d", t .RPAREN ")", t .ADD "+", t .IDENT "x"] := by
+  decide
 
 /-- non-vacuity: `a - b - c * d` is the left-nested tree, printed without parentheses -/
 example :
